@@ -243,9 +243,7 @@ fn release_action_mappings(state: &mut State) -> Vec<Event> {
   events
 }
 
-fn add_new_mapping(state: &mut State, new_key: &KeyCode, m: &Mapping) -> StepResult {
-  let mut events: Vec<Event> = Vec::new();
-  
+fn consume_pass_through_keys(state: &mut State, m: &Mapping, events: &mut Vec<Event>) {
   let pass_through_keys = &mut state.pass_through_keys;
   let mapped_output_keys = &mut state.mapped_output_keys;
   
@@ -264,6 +262,12 @@ fn add_new_mapping(state: &mut State, new_key: &KeyCode, m: &Mapping) -> StepRes
       true
     }
   });
+}
+
+fn add_new_mapping(state: &mut State, new_key: &KeyCode, m: &Mapping) -> StepResult {
+  let mut events: Vec<Event> = Vec::new();
+  
+  consume_pass_through_keys(state, m, &mut events);
   
   if is_action_mapping(m) {
     events.append(&mut release_action_mappings(state));
@@ -275,6 +279,8 @@ fn add_new_mapping(state: &mut State, new_key: &KeyCode, m: &Mapping) -> StepRes
     };
     if should_absorb {
       events.append(&mut release_absorbed_keys(state));
+      // release_absorbed_keys can hand keys back to pass-through; those that `m` consumes are consumed too
+      consume_pass_through_keys(state, m, &mut events);
     }
   }
   
